@@ -15,6 +15,7 @@ import (
 	"sort"
 	"strconv"
 	"sync"
+	"sync/atomic"
 	"time"
 	"unsafe"
 
@@ -782,6 +783,44 @@ func (e *env) registryOps(st Step) (res Result) {
 			close(stop)
 			rg.Wait()
 			codec.Remove(nm)
+		}
+		if r%8 == 1 {
+			// phase G - Clear empties the registry in one step: with 200 names registered and one Clear in flight, a
+			// reader that has seen one of them absent can never afterwards see another one present
+			names := make([]string, 200)
+			for i := range names {
+				names[i] = fmt.Sprintf("%s_g%d", name, i)
+				codec.Registry(&namedSvc{names[i]})
+			}
+			var bad int32
+			var wg3 sync.WaitGroup
+			start3 := make(chan struct{})
+			for t := 0; t < 3; t++ {
+				wg3.Add(1)
+				go func(t int) {
+					defer wg3.Done()
+					<-start3
+					for pass := 0; pass < 50; pass++ {
+						sawAbsent := false
+						for i := range names {
+							_, ok := codec.Get(names[(i*7+t)%len(names)])
+							if !ok {
+								sawAbsent = true
+							} else if sawAbsent {
+								atomic.AddInt32(&bad, 1)
+								return
+							}
+						}
+					}
+				}(t)
+			}
+			close(start3)
+			codec.Clear()
+			wg3.Wait()
+			anomalies += int(bad)
+			for _, b := range builtins {
+				codec.Registry(b)
+			}
 		}
 		if r%8 == 5 {
 			// phase F - a name that stays registered is looked up while other names are registered and removed:
